@@ -27,13 +27,17 @@ def parseANode (j : Json) : R AGraph.ANode := do
          defOne := ← jfield jbool j "defOne",
          defZero := ← jfield jbool j "defZero",
          exist := ← jfield jbool j "exist",
-         gate := ← jfield jbool j "gate" }
+         ttcSet := ← jfield jbool j "ttcSet",
+         ttcName := ← jfieldOpt jstr j "ttcName" }
 
 def opApriori (j : Json) : R Json := do
   let g ← jfield (jlist parseANode) j "nodes"
   let order ← jfield (jlist jnat) j "order"
-  let v := AGraph.calcViab g order
-  let n := AGraph.calcNec g order
+  -- labels the nodes carry when the analysis is called (absent: a freshly generated graph)
+  let v0 := (← jfieldOpt (jlist jbool) j "viable0").getD []
+  let n0 := (← jfieldOpt (jlist jbool) j "necessary0").getD []
+  let v := AGraph.calcViabFrom g order (AGraph.labOfList v0)
+  let n := AGraph.calcNecFrom g order (AGraph.labOfList n0)
   let idx := List.range g.length
   pure <| jO [("viable", jsonOfList jB (idx.map v)), ("necessary", jsonOfList jB (idx.map n))]
 
